@@ -117,6 +117,23 @@ def _equals_default(default, value):
         return False
 
 
+def _dict_to_xo_names(xostruct, dct):
+    """Translate the python-side names that to_dict() writes for (nested)
+    hybrid objects back to the field names of `xostruct`."""
+    dressing = getattr(xostruct, "_DressingClass", None)
+    inverse_rename = getattr(dressing, "_inverse_rename", {})
+    out = {}
+    for kk, vv in dct.items():
+        name = inverse_rename.get(kk, kk)
+        ftype = getattr(getattr(xostruct, name, None), "ftype", None)
+        if isinstance(ftype, Ref):
+            ftype = ftype._reftype
+        if isinstance(vv, dict) and hasattr(ftype, "_DressingClass"):
+            vv = _dict_to_xo_names(ftype, vv)
+        out[name] = vv
+    return out
+
+
 def _build_xofields_dict(bases, data):
     if "_xofields" in data.keys():
         xofields = data["_xofields"].copy()
@@ -292,6 +309,9 @@ class HybridClass(metaclass=MetaHybridClass):
                 xo_kwargs[self._inverse_rename.get(kk, kk)] = vv._xobject
             else:
                 xo_kwargs[self._inverse_rename.get(kk, kk)] = vv
+
+        # nested dictionaries (e.g. from to_dict) use python-side names too
+        xo_kwargs = _dict_to_xo_names(self._XoStruct, xo_kwargs)
 
         self._xobject = self._XoStruct(**xo_kwargs)
 
